@@ -236,12 +236,13 @@ def run(ctx):
                       "accepted": n_acc, "rejected_at_assignment": n_rej,
                       "observations_validated_by_tlc": n_coerce + len(robs), "tasks_run": len(pool)})
 
-    for c, o, sites, oid in index:
-        if o["acc"] and "field_init" in sites and c["t"]["k"] not in tc.ATOMS_ALL and o["r"] != c["v"]:
-            ctx.sample({"type": tc.type_src(c["t"]), "value": tc.show(c["v"]), "stored": tc.show(o["r"]),
+    kinds_seen = set()
+    for c, o, sites, oid in index:      # one written-out accepted case per kind of type, value changed by coercion
+        if (o["acc"] and "field_init" in sites and c["t"]["k"] in ("list", "dict", "multi", "union", "tuple")
+                and c["t"]["k"] not in kinds_seen and o["r"] != c["v"] and c["v"]["k"] not in ("str", "bytes")):
+            kinds_seen.add(c["t"]["k"])
+            ctx.sample({"type": tc.type_src(c["t"]), "value": tc.show(c["v"]), "stored": tc.show(o["r"]), "sites": sites,
                         "tlc_verdict": {k: verdicts[oid][k] for k in ("conforms", "noconfusion", "idem")}})
-            if len(ctx.samples) >= 5:
-                break
     rej = next(((c, o) for c, o, _, _ in index if not o["acc"] and c["t"]["k"] == "list"), None)
     if rej:
         ctx.sample({"type": tc.type_src(rej[0]["t"]), "value": tc.show(rej[0]["v"]), "rejected_with": rej[1]["err"]})
